@@ -49,6 +49,26 @@ CHECKS = {
             "Seeded search over schedules x channel capacities (0/1/2/3-16/1024 per channel) x producer bursts/stalls x consumer stalls x early consumer drop, over pipelines assembled like convert.rs from lifecycle, plugins (FileTransfer, Rewrite), sort and filter stages, each sending with the blocking-send helper. Delivered sequence and final lifecycle table compared with the same stages run sequentially over unbounded channels (ids renamed by first appearance; multiset only when sorted); on consumer drop every thread must terminate (deadlock / step-bound overrun = violation), nothing delivered twice, delivered prefix equals the reference. Sampling, not proof.",
             "Same scheduler assumptions as C06; the reference run is real code too (same process, simple schedule).",
             "DESIGN.md §6 C13"),
+    "C09": ("streamsim", "exploration",
+            "deterministic simulation: recordings of simulated recorders pulled lazily through scripted short-read readers into the real merge iterators",
+            "Seeded search over families of 0-6 sources (increasing, tied, unordered, empty recordings from simulated recorder clocks) merged by all four constructors with start indices incl. near u32::MAX; two thirds of the sources are real DltMessageIterators over LowMarkBufReader over a scripted short-read source, so the merge pulls lazily from stream seams. Every output message is attributed to (source, position): exactly once, per-source order, numbering, global order when all sources are ordered, concatenation for the chain. Sampling, not proof. Weakest fit of the claimed properties (see DESIGN.md).",
+            "For the *_or_single_it single-source shortcut the documented 'start index ignored' behaviour is the expectation.",
+            "DESIGN.md §6 C09"),
+    "C10": ("worldsim", "exploration",
+            "deterministic simulation: simulated worlds and bounded-delay traces through the real sort stage with real, stale and empty lifecycle tables",
+            "Seeded search, two kinds of runs: (perm) simulated worlds through the real lifecycle stage and the real sorter with the real table, a shifted/partial stale table or an empty table over windows {1,2,3,10,255} s x minimum delays {0,1 ms,2 s,20 s}: output must be a permutation, every message unchanged; (order) generated multi-ECU/multi-lifecycle traces with non-decreasing reception times (ties included) and per-message buffering delay within the minimum (at the bound, 'negative'/capped, control requests): output ordered by (calculated time, original position); the precondition is re-checked on the concrete case. Sampling, not proof.",
+            "Calculated time as the statement defines it, lifecycle starts taken from the table handed to the sorter.",
+            "DESIGN.md §6 C10"),
+    "C12": ("pipesim", "exploration",
+            "deterministic simulation: filter stage as a shuttle thread between bounded channels (capacity/pacing/consumer-drop knobs) plus the set matcher, against the combination rule over real per-filter verdicts",
+            "Seeded search over filter sets (0-6 filters of every kind, enabled or not, negated or not, overlapping criteria) x simulated message streams x schedules/capacities/consumer pacing/consumer drop. Forwarded sequence, order and the kept/dropped counters of the real stream filter stage and the verdicts of the real set matcher (on the set StreamContext::from builds) are compared with the stated rule applied to the real per-filter verdicts. Sampling, not proof.",
+            "Per-filter semantics (C11) are taken from the real Filter::matches and not decided here.",
+            "DESIGN.md §6 C12"),
+    "C17": ("protosim", "fault_enumeration",
+            "deterministic simulation with enumerated fault injection: file-transfer senders over a lossy interleaving transport into the real plugin, sandboxed disk",
+            "For every generated transfer configuration (sizes around package boundaries, package sizes 1..4096 and = file, 1-3 concurrent transfers, both byte orders, names with directory parts, interleaving with unrelated traffic, auto-save directory pre-seeded) EVERY single fault on the first transfer is enumerated: drop/duplicate (adjacent, delayed)/swap/resize of each package, drop announcement, drop end marker. Oracle: completeness exactly as stated, bit-exact content through the plugin's save command and auto-save, never complete/saved when damaged, no overwrite, nothing outside the configured directory (canary parent scanned). Configurations are sampled, faults per configuration are enumerated.",
+            "With the announcement dropped only the safety half is demanded; announcement always truthful; completion read from the plugin's published state.",
+            "DESIGN.md §6 C17"),
 }
 
 NOT_APPLICABLE = {
